@@ -33,7 +33,7 @@ _P["level_text"] += (
     "points and negating J negates the signed m12/b and exchanges M12, M21), addition_rule_m (m13 = m12 M23 + m23 M21), addition_rule_M(_div) "
     "(M13 = M12 M23 − (1 − M12 M21) m23/m12), scales_wronskian (M12 M21 − m12·dM12/ds2 = 1 with b·dM12/ds2 = dM12f); xgenpos_wronskian: the "
     "Wronskian identity on the executed model of the exact line for every kernel; delta_sq (EllipticFunction::Delta is √(1 + k² sin²σ) in both "
-    "branches); dstIntegral_eq (DST::integral(sin x, cos x, F) = −Σ F_i/(2i+1) cos((2i+1)x) for every coefficient vector). The exact line's "
+    "branches); dstIntegral_eq (DST::integral(sin x, cos x, F) = −Σ F_i/(2i+1) cos((2i+1)x) for every coefficient vector); c2_exact_eq_series (for 0 < f < 1 the _c2 of GeodesicExact, written with asinh √e′², and the _c2 of Geodesic, written with e·atanh e, are the same real number (a² + b² atanh(e)/e)/2, the closed form behind EllipsoidArea = 4π c2). The exact line's "
     "GenPosition (m12, M12, M21, and S12 when the DST has ≤ 400 coefficients) is executed against the implementation for every flattening. Not "
     "proved: that dM12f is the derivative of the coded M12 (derivation in a comment only); the DST coefficients and the I4 integrand of the exact "
     "area (oracle only); accuracy figures.")
